@@ -25,6 +25,34 @@ theorem frameOf_length (cd : Codec α) (cfg : EncCfg) (m : α) :
     (frameOf cd cfg m).length = 5 + (payload cd cfg m).length := by
   simp [frameOf, u32be]; omega
 
+/-! ### `buffer_size` never makes `compress` / `decompress` panic (after the fix) -/
+
+theorem reserveCap_isSome (bufSize len : Nat) : (reserveCap bufSize len).isSome = true := by
+  have : max 1 bufSize ≠ 0 := by omega
+  simp [reserveCap, udiv, this]
+
+theorem compressCall_eq (cd : Codec α) (bufSize : Nat) (e : Enc) (raw : Bytes) :
+    compressCall cd bufSize e raw = some (cd.cz e raw) := by
+  have h := reserveCap_isSome bufSize raw.length
+  simp only [compressCall]
+  cases hr : reserveCap bufSize raw.length with
+  | none => simp [hr] at h
+  | some c => rfl
+
+theorem decompressCall_eq (cd : Codec α) (bufSize : Nat) (e : Enc) (pl : Bytes) :
+    decompressCall cd bufSize e pl = some (cd.dz e pl) := by
+  have h := reserveCap_isSome bufSize (2 * pl.length)
+  simp only [decompressCall]
+  cases hr : reserveCap bufSize (2 * pl.length) with
+  | none => simp [hr] at h
+  | some c => rfl
+
+theorem compressPanics_false (cd : Codec α) (cfg : EncCfg) (m : α) : compressPanics cd cfg m = false := by
+  simp only [compressPanics]
+  cases cfg.comp with
+  | none => rfl
+  | some e => simp [compressCall_eq]
+
 /-- messages the source produces before its first error / first unencodable message -/
 def okPrefix (cd : Codec α) (cfg : EncCfg) : List (SrcEv α) → List α
   | [] => []
@@ -58,6 +86,7 @@ def LoopGood (cd : Codec α) (cfg : EncCfg) (buf : Bytes) (evs : List (SrcEv α)
       finalSt cd cfg evs = finalSt cd cfg evs' ∧ evs'.length < evs.length
   | .err st => buf = [] ∧ s'.error = none ∧ okPrefix cd cfg evs = [] ∧ finalSt cd cfg evs = some st
   | .done => buf = [] ∧ s'.error = none ∧ evs = [] ∧ evs' = []
+  | .panic => False
 
 theorem loop_good (cd : Codec α) (cfg : EncCfg) (evs : List (SrcEv α)) : ∀ (buf : Bytes),
     LoopGood cd cfg buf evs (Enc.loop cd cfg buf evs).1 (Enc.loop cd cfg buf evs).2.1
@@ -90,6 +119,7 @@ theorem loop_good (cd : Codec α) (cfg : EncCfg) (evs : List (SrcEv α)) : ∀ (
         refine ⟨by simp, by simp, [], by simp, hb, by simp [okPrefix], by simp [finalSt], by simp [hb] <;> omega⟩
     | item m =>
       unfold Enc.loop
+      simp only [compressPanics_false, Bool.false_eq_true, ↓reduceIte]
       cases he : encodeErr cd cfg m with
       | some st =>
         simp only [encodeItem, he]
@@ -121,6 +151,111 @@ theorem loop_good (cd : Codec α) (cfg : EncCfg) (evs : List (SrcEv α)) : ∀ (
           | pending => exact absurd h3.1 (by simp [frameOf_ne_nil])
           | err st => exact absurd h3.1 (by simp [frameOf_ne_nil])
           | done => exact absurd h3.1 (by simp [frameOf_ne_nil])
+          | panic => exact h3
+
+theorem loop_ne_panic (cd : Codec α) (cfg : EncCfg) (evs : List (SrcEv α)) (buf : Bytes) :
+    (Enc.loop cd cfg buf evs).2.2 ≠ .panic := by
+  have h := loop_good cd cfg evs buf
+  intro hp
+  rw [hp] at h
+  exact h.2.2
+
+theorem pollNext_ne_panic (cd : Codec α) (cfg : EncCfg) (s : EncSt) (evs : List (SrcEv α)) :
+    (Enc.pollNext cd cfg s evs).2.2 ≠ .panic := by
+  unfold Enc.pollNext
+  cases s.error with
+  | some st => simp
+  | none => exact loop_ne_panic cd cfg evs s.buf
+
+theorem pollFrame_ne_panic (cd : Codec α) (cfg : EncCfg) (b : BodySt) (evs : List (SrcEv α)) :
+    (Enc.pollFrame cd cfg b evs).2.2 ≠ .panic := by
+  unfold Enc.pollFrame
+  by_cases he : b.isEndStream = true
+  · simp [he]
+  · simp only [he, Bool.false_eq_true, ↓reduceIte]
+    have h := pollNext_ne_panic cd cfg b.inner evs
+    generalize Enc.pollNext cd cfg b.inner evs = r at h
+    obtain ⟨s', evs', o⟩ := r
+    cases o with
+    | panic => exact absurd rfl h
+    | data d => simp
+    | pending => simp
+    | err st => dsimp only; split <;> simp
+    | done => dsimp only; split <;> simp
+
+/-- **No poll of the body panics**, from any state, for any schedule and any configuration
+(any `buffer_size`, zero included). -/
+theorem run_ne_panic (cd : Codec α) (cfg : EncCfg) (n : Nat) : ∀ (b : BodySt) (evs : List (SrcEv α)),
+    ∀ o ∈ Enc.run cd cfg n b evs, o ≠ .panic := by
+  induction n with
+  | zero => intro b evs o ho; simp [Enc.run] at ho
+  | succ n ih =>
+    intro b evs o ho
+    simp only [Enc.run] at ho
+    have hp := pollFrame_ne_panic cd cfg b evs
+    generalize Enc.pollFrame cd cfg b evs = r at ho hp
+    obtain ⟨b', evs', o'⟩ := r
+    rcases List.mem_cons.mp ho with rfl | ho
+    · exact hp
+    · exact ih b' evs' o ho
+
+/-- The encoder's behaviour does not depend on `buffer_size`. -/
+theorem loop_bufSize (cd : Codec α) (cfg : EncCfg) (k : Nat) (evs : List (SrcEv α)) : ∀ (buf : Bytes),
+    Enc.loop cd { cfg with bufSize := k } buf evs = Enc.loop cd cfg buf evs := by
+  induction evs with
+  | nil => intro buf; simp [Enc.loop]
+  | cons ev rest ih =>
+    intro buf
+    cases ev with
+    | pending => simp [Enc.loop]
+    | err st => simp [Enc.loop]
+    | item m =>
+      unfold Enc.loop
+      simp only [compressPanics_false, Bool.false_eq_true, ↓reduceIte]
+      have he : encodeItem cd { cfg with bufSize := k } buf m = encodeItem cd cfg buf m := rfl
+      rw [he]
+      cases encodeItem cd cfg buf m with
+      | error st => rfl
+      | ok buf' =>
+        dsimp only
+        rw [ih buf']
+
+theorem pollFrame_bufSize (cd : Codec α) (cfg : EncCfg) (k : Nat) (b : BodySt) (evs : List (SrcEv α)) :
+    Enc.pollFrame cd { cfg with bufSize := k } b evs = Enc.pollFrame cd cfg b evs := by
+  simp only [Enc.pollFrame, Enc.pollNext, loop_bufSize]
+
+theorem run_bufSize (cd : Codec α) (cfg : EncCfg) (k : Nat) (n : Nat) : ∀ (b : BodySt) (evs : List (SrcEv α)),
+    Enc.run cd { cfg with bufSize := k } n b evs = Enc.run cd cfg n b evs := by
+  induction n with
+  | zero => intros; rfl
+  | succ n ih =>
+    intro b evs
+    simp only [Enc.run, pollFrame_bufSize]
+    generalize Enc.pollFrame cd cfg b evs = r
+    obtain ⟨b', evs', o⟩ := r
+    simp only [ih]
+
+theorem trace_run (cd : Codec α) (cfg : EncCfg) (n : Nat) : ∀ (b : BodySt) (evs : List (SrcEv α)),
+    (Enc.trace cd cfg n b evs).1.map (·.2) = Enc.run cd cfg n b evs := by
+  induction n with
+  | zero => intros; rfl
+  | succ n ih =>
+    intro b evs
+    simp only [Enc.trace, Enc.run]
+    generalize Enc.pollFrame cd cfg b evs = r
+    obtain ⟨b', evs', o⟩ := r
+    simp [ih]
+
+theorem trace_flags (cd : Codec α) (cfg : EncCfg) (n : Nat) : ∀ (b : BodySt) (evs : List (SrcEv α)),
+    (Enc.trace cd cfg n b evs).1.map (·.1) ++ [(Enc.trace cd cfg n b evs).2] = Enc.endFlags cd cfg n b evs := by
+  induction n with
+  | zero => intros; rfl
+  | succ n ih =>
+    intro b evs
+    simp only [Enc.trace, Enc.endFlags]
+    generalize Enc.pollFrame cd cfg b evs = r
+    obtain ⟨b', evs', o⟩ := r
+    simp [ih]
 
 /-- the data a frame output carries -/
 def FrameOut.bytes : FrameOut → Bytes
@@ -189,6 +324,7 @@ theorem run_server (cd : Codec α) (cfg : EncCfg) (hs : cfg.server = true) (n : 
       dsimp only at hbuf hlen hcase ⊢
       subst hbuf
       cases o with
+      | panic => exact hcase.elim
       | done =>
         obtain ⟨_, he, hev, hev'⟩ := hcase
         subst hev
@@ -267,6 +403,7 @@ theorem run_client (cd : Codec α) (cfg : EncCfg) (hs : cfg.server = false) (n :
       dsimp only at hbuf hlen hcase ⊢
       subst hbuf
       cases o with
+      | panic => exact hcase.elim
       | done =>
         obtain ⟨_, he, hev, hev'⟩ := hcase
         subst hev; subst hev'; subst he
@@ -321,5 +458,117 @@ theorem run_client (cd : Codec α) (cfg : EncCfg) (hs : cfg.server = false) (n :
           | none =>
             rw [hf] at hrun
             simp [hrun]
+
+/-! ### `is_end_stream` -/
+
+/-- The flag is raised only by the poll that produces the trailers frame, and only in a server body. -/
+theorem pollFrame_end (cd : Codec α) (cfg : EncCfg) (b : BodySt) (evs : List (SrcEv α))
+    (hb : b.isEndStream = false) (h : (Enc.pollFrame cd cfg b evs).1.isEndStream = true) :
+    cfg.server = true ∧ ∃ st, (Enc.pollFrame cd cfg b evs).2.2 = .trailers st := by
+  unfold Enc.pollFrame at h ⊢
+  simp only [hb, Bool.false_eq_true, ↓reduceIte] at h ⊢
+  generalize Enc.pollNext cd cfg b.inner evs = r at h ⊢
+  obtain ⟨s', evs', o⟩ := r
+  cases o with
+  | data d => simp [hb] at h
+  | pending => simp [hb] at h
+  | panic => simp [hb] at h
+  | err st =>
+    dsimp only at h ⊢
+    cases hs : cfg.server with
+    | true => simp
+    | false => simp [hs, hb] at h
+  | done =>
+    dsimp only at h ⊢
+    cases hs : cfg.server with
+    | true => simp
+    | false => simp [hs, hb] at h
+
+theorem endFlags_ended (cd : Codec α) (cfg : EncCfg) (n : Nat) : ∀ (b : BodySt) (evs : List (SrcEv α)),
+    b.isEndStream = true → Enc.endFlags cd cfg n b evs = List.replicate (n + 1) true := by
+  induction n with
+  | zero => intro b evs h; simp [Enc.endFlags, Enc.isEndStream, h]
+  | succ n ih =>
+    intro b evs h
+    simp only [Enc.endFlags, Enc.pollFrame, h, ↓reduceIte, Enc.isEndStream]
+    rw [ih b evs h]
+    simp [List.replicate_succ]
+
+/-- **`is_end_stream()` is true only after the trailers frame.**  From a body that has not ended:
+if the flag observed before poll `i` (or after the last poll) is true, the body is a server body,
+the trailers frame was produced by an earlier poll, and every poll from `i` on yields `None` — in
+particular no data frame follows, and a client body never raises the flag. -/
+theorem endFlags_sound (cd : Codec α) (cfg : EncCfg) (n : Nat) : ∀ (b : BodySt) (evs : List (SrcEv α)),
+    b.isEndStream = false → ∀ (i : Nat), (Enc.endFlags cd cfg n b evs)[i]? = some true →
+    cfg.server = true ∧ (∃ (j : Nat) (st : St), j < i ∧ (Enc.run cd cfg n b evs)[j]? = some (FrameOut.trailers st)) ∧
+    ∀ (j : Nat) (o : FrameOut), i ≤ j → (Enc.run cd cfg n b evs)[j]? = some o → o = FrameOut.none := by
+  induction n with
+  | zero =>
+    intro b evs hb i hi
+    cases i with
+    | zero => simp [Enc.endFlags, Enc.isEndStream, hb] at hi
+    | succ i => simp [Enc.endFlags] at hi
+  | succ n ih =>
+    intro b evs hb i hi
+    cases i with
+    | zero => simp [Enc.endFlags, Enc.isEndStream, hb] at hi
+    | succ i =>
+      have hend := pollFrame_end cd cfg b evs hb
+      simp only [Enc.endFlags, Enc.run] at hi ⊢
+      generalize Enc.pollFrame cd cfg b evs = r at hi hend ⊢
+      obtain ⟨b', evs', o⟩ := r
+      simp only [List.getElem?_cons_succ] at hi
+      cases hb' : b'.isEndStream with
+      | false =>
+        obtain ⟨hs, ⟨j, st, hj, hrun⟩, hafter⟩ := ih b' evs' hb' i hi
+        refine ⟨hs, ⟨j + 1, st, by omega, by simpa using hrun⟩, ?_⟩
+        intro j' o' hle hget
+        cases j' with
+        | zero => omega
+        | succ j' => exact hafter j' o' (by omega) (by simpa using hget)
+      | true =>
+        obtain ⟨hs, st, ho⟩ := hend hb'
+        dsimp only at ho
+        subst ho
+        refine ⟨hs, ⟨0, st, by omega, by simp⟩, ?_⟩
+        intro j' o' hle hget
+        cases j' with
+        | zero => omega
+        | succ j' =>
+          rw [run_ended cd cfg n b' evs' hb'] at hget
+          simp only [List.getElem?_cons_succ] at hget
+          have := List.mem_of_getElem? hget
+          exact (List.mem_replicate.mp this).2
+
+/-! ### A failing `Encoder::encode` at any position -/
+
+/-- a prefix of a schedule that cannot fail: `Pending`s and encodable items only -/
+def AllOk (cd : Codec α) (cfg : EncCfg) : List (SrcEv α) → Prop
+  | [] => True
+  | .pending :: r => AllOk cd cfg r
+  | .item m :: r => encodeErr cd cfg m = none ∧ AllOk cd cfg r
+  | .err _ :: _ => False
+
+def itemsOfEvs : List (SrcEv α) → List α
+  | [] => []
+  | .item m :: r => m :: itemsOfEvs r
+  | _ :: r => itemsOfEvs r
+
+theorem okPrefix_append (cd : Codec α) (cfg : EncCfg) (pre tail : List (SrcEv α)) (h : AllOk cd cfg pre) :
+    okPrefix cd cfg (pre ++ tail) = itemsOfEvs pre ++ okPrefix cd cfg tail ∧
+    finalSt cd cfg (pre ++ tail) = finalSt cd cfg tail := by
+  induction pre with
+  | nil => simp [itemsOfEvs]
+  | cons ev r ih =>
+    cases ev with
+    | pending => simpa [okPrefix, itemsOfEvs, finalSt] using ih h
+    | err st => exact absurd h (by simp [AllOk])
+    | item m =>
+      obtain ⟨he, hr⟩ := h
+      simp [okPrefix, itemsOfEvs, finalSt, he, ih hr]
+
+theorem serFail_encodeErr (cd : Codec α) (cfg : EncCfg) (m : α) (h : cd.serFail m = true) :
+    encodeErr cd cfg m = some ⟨13, .encode⟩ := by
+  simp [encodeErr, h]
 
 end Framing
